@@ -368,15 +368,18 @@ pub fn run(ctx: &Ctx) -> (Stats, Report) {
     // E: the triple written as text and read through the parse entry points of the three
     // date-bearing types (their validators are separate code): years 0..=9999 x months 0..=14,
     // 99 x days 0..=33, 99
-    let pm: Vec<u32> = (0..=14).chain([20, 99]).collect();
-    let pd: Vec<u32> = (0..=33).chain([40, 99]).collect();
+    let pm: Vec<u32> = if ctx.thorough { (0..=99).collect() } else { (0..=14).chain([20, 99]).collect() };
+    let pd: Vec<u32> = if ctx.thorough { (0..=99).collect() } else { (0..=33).chain([40, 99]).collect() };
+    let all_entry_points = ctx.thorough;
     let g = par_sweep(10_000, 16, |range, st| {
         for y in range {
             let y = y as i32;
             for &m in &pm {
                 for &d in &pd {
                     // two pictures x three types, rotated so that every (month, day) pair meets each of them on every 6th year
-                    for which in [((y as u32 + m + d) % 6) as u8, ((y as u32 + m + d + 1) % 6) as u8] {
+                    let rot = [((y as u32 + m + d) % 6) as u8, ((y as u32 + m + d + 1) % 6) as u8];
+                    let whichs: &[u8] = if all_entry_points { &[0, 1, 2, 3, 4, 5] } else { &rot };
+                    for &which in whichs {
                         st.evaluations += 1;
                         match check_triple_parsed(which, y, m, d) {
                             Ok(true) => st.class("parsed-triple-accepted"),
@@ -395,7 +398,7 @@ pub fn run(ctx: &Ctx) -> (Stats, Report) {
         }
     });
     st.merge(g);
-    st.exhaustive_sections.push("triples as text through Date / Timestamp / OracleDate parse: years 0..=9999 x 17 months x 36 days".into());
+    st.exhaustive_sections.push(format!("triples as text through Date / Timestamp / OracleDate parse: years 0..=9999 x {} months x {} days", pm.len(), pd.len()));
     st.section("triples_through_parse", &mut mark);
 
     let rep = Report {
